@@ -137,14 +137,17 @@ def make_instance(mod: CF.Module, cls: Any, eff: list[dict], variant: int) -> tu
         elif kind == "union":
             kw[f["name"]] = None if variant == 1 else (F(n=j) if variant == 2 else B(n=j))
         elif kind == "tuple":
-            kw[f["name"]] = () if variant == 1 else ((F(n=j), A(n=j + 1), F(n=j + 2)) if variant == 2 else (A(n=j), S(n=j + 1)))
+            rep = A(n=j)  # (variant 0: one object at two positions of the tuple)
+            kw[f["name"]] = () if variant == 1 else ((F(n=j), A(n=j + 1), F(n=j + 2)) if variant == 2 else (rep, S(n=j + 1), rep))
         elif kind == "fixed":
             kw[f["name"]] = (F(n=j), B(n=j)) if variant == 2 else (A(n=j), B(n=j))
     return cls(**kw), kw
 
 
-def check_class(mod: CF.Module, classes: list[dict], k: int, lab: Labels) -> list:
-    """runs every accessor on class k; returns a structural summary (for cross-order comparison)."""
+def check_class(mod: CF.Module, classes: list[dict], k: int, lab: Labels, first: int = 0) -> list:
+    """runs every accessor on class k; returns a structural summary (for cross-order comparison).
+    `first`: which accessor is the very first one called on the class (with sort_keys=True): the
+    per-class functions are generated by the first call."""
     cls = mod.get(f"C{k}")
     eff = effective(classes, k)
     dc_names = [f.name for f in dataclasses.fields(cls)]
@@ -186,6 +189,21 @@ def check_class(mod: CF.Module, classes: list[dict], k: int, lab: Labels) -> lis
     for variant in range(3):
         inst, kw = make_instance(mod, cls, eff, variant)
         val = lambda f: getattr(inst, f["name"])  # noqa: E731
+        if variant == 0 and first:
+            by_name = sorted(kids, key=lambda f: f["name"])
+            if first == 1:
+                got_first = [f.name for _, f in inst.iter_child_fields(sort_keys=True)]
+                require(got_first == [f["name"] for f in by_name], "iter_child_fields",
+                        f"C{k}: the first call ever on the class, with sort_keys=True: {got_first}")
+            elif first == 2:
+                exp_first = []
+                for f in by_name:
+                    v = getattr(inst, f["name"])
+                    exp_first += list(v) if f["kind"] in ("tuple", "fixed") else ([v] if v is not None else [])
+                got_n1 = list(inst.get_child_nodes(sort_keys=True))
+                require(len(got_n1) == len(exp_first) and all(a is b_ for a, b_ in zip(got_n1, exp_first)), "get_child_nodes",
+                        f"C{k}: the first call ever on the class, with sort_keys=True")
+            lab.tag(f"first-call-sorted-{first}")
         for sort_keys in (False, True):
             for flags in itertools.product((False, True), repeat=5):
                 skip_id, skip_origin, skip_cid, skip_nc, skip_ni = flags
@@ -331,7 +349,7 @@ def check_hierarchy(data: dict, lab: Labels) -> None:
                 raise mod.error
             summ = []
             for k in order:
-                summ.extend(check_class(mod, classes, k, lab))
+                summ.extend(check_class(mod, classes, k, lab, first=(sum(order[:2]) + len(orders) + k) % 3))
             summ.sort(key=lambda t: (t[0], t[1]))
             if first_summary is None:
                 first_summary = summ
